@@ -25,10 +25,11 @@ theorem C08_instrumented_lines_from_gcno_only (g : Notes) (ds : List Gcda) (br :
     l ∈ keys cov.lines ↔ ∃ f ∈ g.funcs, f.fileName = k ∧ ∃ b ∈ f.blocks, l ∈ b.lines :=
   compute_lines_iff h hk l
 
-/-- `add_line_count`: the function is executed iff the count of its first arc (entry block →
-body) is positive … -/
+/-- `add_line_count` never fails on the function's shape alone, and the function is executed iff
+it has an arc and the count of its first arc (entry block → body) is positive … -/
 theorem C08_executed_iff_entry_arc_positive (f : Func) (c : Cnt) (ex : Bool)
-    (ls : List (Nat × Nat)) (h : addLineCount f c = ok (ex, ls)) : ex = decide (c.arc 0 > 0) :=
+    (ls : List (Nat × Nat)) (h : addLineCount f c = ok (ex, ls)) :
+    ex = (!f.arcs.isEmpty && decide (c.arc 0 > 0)) :=
   addLineCount_executed h
 
 /-- … it reports exactly the lines of its blocks, whatever the counters … -/
@@ -43,15 +44,11 @@ theorem C08_single_block_line (f : Func) (c : Cnt) (ls : List (Nat × Nat)) (l b
     (h : addLineCount f c = ok (true, ls)) (hl : (l, [b]) ∈ linesToBlock f) :
     (l, c.blk b) ∈ ls := by
   unfold addLineCount at h
-  cases ha : f.arcs with
-  | nil => rw [ha] at h; cases h
-  | cons a as =>
-    rw [ha] at h; simp only at h
-    split at h
-    · obtain ⟨ls', h1, h2⟩ := bind_eq_ok.1 h
-      cases h2
-      exact lineCounts_single f c l b _ _ _ h1 hl
-    · cases h
+  split at h
+  · obtain ⟨ls', h1, h2⟩ := bind_eq_ok.1 h
+    cases h2
+    exact lineCounts_single f c l b _ _ _ h1 hl
+  · cases h
 
 /-! ### flow conservation -/
 
@@ -111,6 +108,9 @@ theorem C08_executed_iff_entered (version : Nat) (f : Func) (depth parc root F :
     rw [harcs]
     cases f.arcs <;> simp
   obtain ⟨a, ha⟩ := this
+  have hne : (addVirtualArc version f).arcs.isEmpty = false := by
+    rw [harcs]; cases f.arcs <;> simp
+  simp only [entered, hne, Bool.not_false, Bool.true_and]
   rw [h3 0 a ha]
 
 /-- The hypothesis is checkable: the executable test `isSpanTree` (evaluated by the harness on
